@@ -32,6 +32,10 @@ def cases(tier, seed, args):
                 # saliency correlated with the class, long trajectory
                 sc.update(saliency=True, sal_class=True, iterations=30, K=2, D=3, N=100, L=[2], wca=[(-1,), (-3, -1)][(i // 8) % 2],
                           wca_type='tuple')
+            if i % 8 == 6:
+                # weights tied over frequency, saliency mass and class proportions differ between the bins
+                sc.update(saliency=True, sal_class=True, sal_bin=True, iterations=30, K=2, D=3, N=80, L=[3],
+                          wca=[(-3, -1), (-3,)][(i // 8) % 2], wca_type='tuple')
         if kind == 'gmm':
             sc['opts'] = dict(covariance_type=['full', 'diagonal', 'spherical'][(i // 2) % 3])
             if sc['offset'] >= 1e7:
@@ -68,6 +72,10 @@ def run_case(case):
         A = rng.normal(size=(*L, K, D, D)) + 1j * rng.normal(size=(*L, K, D, D))
         A[..., 0] *= 3
         lab = rng.integers(0, K, size=(*L, N))
+        if case.get('sal_bin'):
+            # class proportions differ between the bins
+            pr = np.linspace(0.2, 0.8, L[0])
+            lab = (rng.random((*L, N)) < pr[:, None]).astype(int)
         x = rng.normal(size=(*L, N, D)) + 1j * rng.normal(size=(*L, N, D))
         Al = np.take_along_axis(A, lab[..., None, None], axis=-3) if False else \
             np.stack([A[..., k, :, :] for k in range(K)], axis=-3)
@@ -83,11 +91,19 @@ def run_case(case):
         sal = rng.integers(1, 4, size=(*L, N)).astype(float)
         if lab is not None:
             sal = np.where(lab == 0, rng.uniform(0.5, 1.0, size=(*L, N)), rng.uniform(0.05, 0.2, size=(*L, N)))
+            if case.get('sal_bin'):
+                sal = np.ones((*L, N))
+                sal[0] = 20.0              # integer saliency: 20 in one bin, 1 in the others
         elif case.get('sal_class'):
             # saliency correlated with the (soft) initial class
             sal = np.where(init[..., 0, :] > np.median(init[..., 0, :]), rng.uniform(0.5, 1.0, size=(*L, N)),
                            rng.uniform(0.05, 0.2, size=(*L, N)))
         opts['saliency'] = sal
+    if kind == 'cwmm':
+        # history: a trainer of the same class has been used with another feature dimension in this process
+        from pb_bss.distribution import CWMMTrainer
+        yo = rng.normal(size=(20, D + 1)) + 1j * rng.normal(size=(20, D + 1))
+        call(CWMMTrainer().fit, yo, initialization=ml.make_init(rng, [], K, 20), iterations=2)
     models = []
 
     def cb(ev, f):
